@@ -11,6 +11,7 @@ import (
 	"sort"
 	"strconv"
 	"strings"
+	"sync"
 	"time"
 
 	"golang.org/x/tools/go/ssa"
@@ -147,6 +148,12 @@ func cmdCheck(args []string) {
 	var all []*Obl
 	nSel, nOK := 0, 0
 	knownHit := map[string]bool{}
+	type failT struct {
+		r *FuncResult
+		i int
+		o *Obl
+	}
+	var fails []failT
 	for _, r := range results {
 		for i, o := range r.Obls {
 			if o.Status == "" {
@@ -164,18 +171,50 @@ func cmdCheck(args []string) {
 				knownHit[o.Name] = true
 				continue
 			}
-			payload := map[string]interface{}{"kind": o.Kind, "function": o.Func, "position": o.PosStr, "clause": o.Text, "solver": o.Solver, "status": o.Status,
-				"solver_output": truncate(o.Output+o.Model, 6000), "fatal": r.Fatal}
-			confirmed := false
-			if o.Status == "sat" {
-				rp := replayObligation(ctx, r, i, o)
-				payload["replay"] = rp
-				if c, ok := rp["confirmed"].(bool); ok && c {
-					confirmed = true
-				}
-			}
-			report(o.Name, payload, confirmed)
+			fails = append(fails, failT{r, i, o})
 		}
+	}
+	// replay counterexamples on the real code (in parallel, capped)
+	const maxReplays = 16
+	replays := make([]map[string]interface{}, len(fails))
+	var wg sync.WaitGroup
+	rsem := make(chan struct{}, 6)
+	nrep := 0
+	for k, f := range fails {
+		if f.o.Status != "sat" {
+			continue
+		}
+		if nrep >= maxReplays {
+			replays[k] = map[string]interface{}{"confirmed": false, "note": fmt.Sprintf("replay skipped: more than %d counterexamples in this run", maxReplays)}
+			continue
+		}
+		nrep++
+		wg.Add(1)
+		go func(k int, f failT) {
+			defer wg.Done()
+			rsem <- struct{}{}
+			defer func() { <-rsem }()
+			defer func() {
+				if x := recover(); x != nil {
+					replays[k] = map[string]interface{}{"confirmed": false, "note": fmt.Sprint("replay generator error: ", x)}
+				}
+			}()
+			replays[k] = replayObligation(ctx, f.r, f.i, f.o)
+		}(k, f)
+	}
+	wg.Wait()
+	for k, f := range fails {
+		o := f.o
+		payload := map[string]interface{}{"kind": o.Kind, "function": o.Func, "position": o.PosStr, "clause": o.Text, "solver": o.Solver, "status": o.Status,
+			"solver_output": truncate(o.Output+o.Model, 6000), "fatal": f.r.Fatal}
+		confirmed := false
+		if replays[k] != nil {
+			payload["replay"] = replays[k]
+			if c, ok := replays[k]["confirmed"].(bool); ok && c {
+				confirmed = true
+			}
+		}
+		report(o.Name, payload, confirmed)
 	}
 	// vacuity: contracts must be satisfiable, some return must be reachable
 	vac := vacuityChecks(results)
